@@ -31,7 +31,7 @@ pub fn exec(func: &str, a: &mut Args) -> String {
     match func {
         "orientation2d" => { let p = d2::p(a); let q = d2::p(a); let r = d2::p(a); let e = a.f();
             fori(Triangle::orientation2d(&p, &q, &r, e)).into() }
-        "segments_intersection2d" => { let p = d2::p(a); let q = d2::p(a); let r = d2::p(a); let s = d2::p(a); let e = a.f();
+        "segments_intersection2d" | "segments_collinear_vertical" | "segments_collinear_horizontal" | "segments_collinear_generic" => { let p = d2::p(a); let q = d2::p(a); let r = d2::p(a); let s = d2::p(a); let e = a.f();
             match segments_intersection2d(&p, &q, &r, &s, e) {
                 None => "none".into(),
                 Some(SegmentsIntersection::Point { loc1, loc2 }) => format!("point {} {}", floc(&loc1), floc(&loc2)),
@@ -44,7 +44,7 @@ pub fn exec(func: &str, a: &mut Args) -> String {
             match corner_direction(&p, &q, &r) { Orientation::Ccw => "ccw", Orientation::Cw => "cw", Orientation::None => "none" }.into() }
         "is_point_in_triangle" => { let p = d2::p(a); let q = d2::p(a); let r = d2::p(a); let s = d2::p(a);
             match is_point_in_triangle(&p, &q, &r, &s) { None => "none".into(), Some(x) => b(x).into() } }
-        "convex_polygons_intersection_points" => { let p1 = poly(a); let p2 = poly(a);
+        "convex_polygons_intersection_points" | "convex_axis_edge_pair" => { let p1 = poly(a); let p2 = poly(a);
             let mut out = Vec::new();
             crate::p2::transformation::convex_polygons_intersection_points(&p1, &p2, &mut out);
             let mut s = format!("{}", out.len());
@@ -187,9 +187,95 @@ fn gen_segments(r: &mut Rng, lat: bool) -> [P2; 4] {
     }
 }
 
+/// Structured family for the parallel / collinear path (`parallel_intersection`, `between`).
+/// The two segments live on one lattice line `o + t·u`, `t` integer, so every coordinate is exact and the interior end
+/// points sit at non-symmetric barycentric parameters (1/3, 1/4, 2/5, …).
+///   dir     0 vertical (a.x == b.x exactly), 1 horizontal, 2 generic lattice direction
+///   pattern overlap pattern of the second segment relative to the first, which spans [0, L]
+///   flip1/flip2 orientation of each segment (up/down, left/right), swap = which segment is (a,b)
+///   off     perpendicular offset in lattice steps (0 = collinear, otherwise parallel and disjoint)
+pub const N_COL_PATTERNS: usize = 13;
+fn collinear_case(r: &mut Rng, dir: usize, pattern: usize, flip1: bool, flip2: bool, swap: bool, off: i64) -> [P2; 4] {
+    let s = *r.pick(&[0.25, 0.5, 1.0]);
+    let (ux, uy): (f64, f64) = match dir {
+        0 => (0.0, s),
+        1 => (s, 0.0),
+        _ => { let dx = *r.pick(&[-3.0, -2.0, -1.0, 1.0, 2.0, 3.0]); let dy = *r.pick(&[-3.0, -2.0, -1.0, 1.0, 2.0, 3.0]); (dx * s, dy * s) }
+    };
+    let l: i64 = 3 + r.below(4) as i64;             // L = 3..6
+    // second segment [lo, hi] in units of u, first is [0, L]
+    let (lo, hi): (i64, i64) = match pattern {
+        0 => (l + 1, l + 3),          // disjoint, beyond the far end
+        1 => (-3, -1),                // disjoint, before the near end
+        2 => (l, l + 2),              // touching at the far end point
+        3 => (-2, 0),                 // touching at the near end point
+        4 => (1, l + 2),              // partial overlap, enters at 1/L
+        5 => (-2, l - 1),             // partial overlap from the other side
+        6 => (1, l - 1),              // contained, both end points interior
+        7 => (1, 2),                  // contained, interior end points at 1/L and 2/L
+        8 => (-1, l + 2),             // containing: the first segment is strictly inside the second
+        9 => (0, l),                  // identical
+        10 => (0, 2),                 // shares the near end point, ends inside
+        11 => (2, l),                 // shares the far end point
+        _ => (-2, l + 1),             // containing, asymmetric
+    };
+    let base = r.range(-6, 6);
+    let o = P2::new(r.lattice(8, 2), r.lattice(8, 2));
+    let at = |t: i64| P2::new(o.x + (base + t) as f64 * ux, o.y + (base + t) as f64 * uy);
+    let (mut a, mut b, mut c, mut d) = (at(0), at(l), at(lo), at(hi));
+    if off != 0 { // parallel, not collinear: shift the second segment perpendicular to the line
+        let (nx, ny) = (-uy * off as f64, ux * off as f64);
+        c = P2::new(c.x + nx, c.y + ny); d = P2::new(d.x + nx, d.y + ny);
+    }
+    if flip1 { std::mem::swap(&mut a, &mut b); }
+    if flip2 { std::mem::swap(&mut c, &mut d); }
+    if swap { [c, d, a, b] } else { [a, b, c, d] }
+}
+fn push_collinear(v: &mut Vec<(String, String)>, dir: usize, s: &[P2; 4], eps: f64) {
+    let name = ["segments_collinear_vertical", "segments_collinear_horizontal", "segments_collinear_generic"][dir];
+    v.push((name.into(), format!("{} {} {} {} {}", d2::hp(&s[0]), d2::hp(&s[1]), d2::hp(&s[2]), d2::hp(&s[3]), hx(eps))));
+}
+
+/// Two convex lattice polygons on the two sides of (or overlapping across) an axis-parallel line, with edges ON that
+/// line whose spans are in a chosen overlap pattern: touching along (part of) a vertical / horizontal edge.
+fn gen_axis_edge_pair(r: &mut Rng) -> (Vec<P2>, Vec<P2>) {
+    let vertical = r.bool();
+    let l: i64 = 3 + r.below(4) as i64;
+    let (lo, hi): (i64, i64) = match r.below(9) {
+        0 => (1, l + 2), 1 => (-2, l - 1), 2 => (1, l - 1), 3 => (1, 2), 4 => (-1, l + 2), 5 => (0, l), 6 => (0, 2), 7 => (2, l), _ => (l, l + 2),
+    };
+    let s = *r.pick(&[0.5, 1.0]);
+    let o = P2::new(r.lattice(8, 1), r.lattice(8, 1));
+    // local frame: the shared line is the w-axis (coordinate along the line = w, across = z)
+    let mk = |w: f64, z: f64| if vertical { P2::new(o.x + z, o.y + w) } else { P2::new(o.x + w, o.y + z) };
+    // polygon on side `sgn` of the line with its edge [w0, w1] on the line, plus 1..3 vertices off the line (convex cap)
+    let cap = |r: &mut Rng, w0: f64, w1: f64, sgn: f64| -> Vec<P2> {
+        let k = 1 + r.below(3) as usize;
+        let mut p = vec![mk(w0, 0.0), mk(w1, 0.0)];
+        let len = w1 - w0;
+        match k {
+            1 => { let t = *r.pick(&[0.25, 0.5, 0.75]); p.push(mk(w0 + len * t, sgn * s * (1 + r.below(3)) as f64)); }
+            2 => { let h = s * (1 + r.below(3)) as f64; p.push(mk(w1, sgn * h)); p.push(mk(w0, sgn * h)); }
+            _ => { let h = s * (1 + r.below(2)) as f64; p.push(mk(w1 + s * 0.5, sgn * h)); p.push(mk(w0 + len * 0.5, sgn * 2.0 * h)); p.push(mk(w0 - s * 0.5, sgn * h)); }
+        }
+        p
+    };
+    let p1 = cap(r, 0.0, l as f64 * s, 1.0);
+    // other side (touching along the edge) most of the time; same side (overlapping interiors, collinear same-direction edges) otherwise
+    let side = if r.below(4) == 0 { 1.0 } else { -1.0 };
+    let p2 = cap(r, lo as f64 * s, hi as f64 * s, side);
+    let (p1, p2) = if r.bool() { (p1, p2) } else { (p2, p1) };
+    (respin(r, p1), respin(r, p2))
+}
+
 pub fn gen(r: &mut Rng, thorough: bool) -> Vec<(String, String)> {
     let n = if thorough { 12000 } else { 1200 };
     let mut v = Vec::new();
+    // exhaustive sweep of the collinear family: every direction × pattern × orientation × role, collinear (off = 0)
+    for dir in 0..3 { for pattern in 0..N_COL_PATTERNS { for bits in 0..8u32 {
+        let s = collinear_case(r, dir, pattern, bits & 1 != 0, bits & 2 != 0, bits & 4 != 0, 0);
+        push_collinear(&mut v, dir, &s, 0.0);
+    } } }
     for it in 0..n {
         let lat = it % 2 == 0;
         // orientation2d / corner_direction / is_point_in_triangle share triangles
@@ -205,6 +291,14 @@ pub fn gen(r: &mut Rng, thorough: bool) -> Vec<(String, String)> {
             let s = gen_segments(r, lat);
             v.push(("segments_intersection2d".into(), format!("{} {} {} {} {}", d2::hp(&s[0]), d2::hp(&s[1]), d2::hp(&s[2]), d2::hp(&s[3]), hx(gen_eps(r)))));
         }
+        // collinear / parallel structured family (always lattice)
+        for _ in 0..2 {
+            let dir = r.below(3) as usize;
+            let off = if r.below(5) == 0 { *r.pick(&[-2, -1, 1, 3]) } else { 0 };
+            let pat = r.below(N_COL_PATTERNS as u64) as usize; let (f1, f2, sw) = (r.bool(), r.bool(), r.bool());
+            let s = collinear_case(r, dir, pat, f1, f2, sw, off);
+            push_collinear(&mut v, dir, &s, gen_eps(r));
+        }
         // polygons
         let p = gen_poly(r, lat);
         for _ in 0..2 {
@@ -218,10 +312,23 @@ pub fn gen(r: &mut Rng, thorough: bool) -> Vec<(String, String)> {
             // a convex polygon is also a polygon: both predicates on the same input
             v.push(("point_in_poly2d".into(), format!("{} {}", d2::hp(&q), hpoly(&c))));
         }
+        // start-vertex independence: a point on the supporting line of edge k (k sweeps every edge index, 0 included),
+        // beyond either end of the edge — outside the polygon, with an exactly zero perp product against that edge
+        if c.len() >= 3 {
+            let k = it % c.len(); let k2 = (k + 1) % c.len();
+            let t = *r.pick(&[-1.0, -0.5, -0.25, 1.25, 1.5, 2.0]);
+            let q = lerp(&c[k], &c[k2], t);
+            v.push(("point_in_convex_poly2d".into(), format!("{} {}", d2::hp(&q), hpoly(&c))));
+        }
         // convex ∩ convex
         for _ in 0..2 {
             let (p1, p2) = gen_convex_pair(r, lat);
             v.push(("convex_polygons_intersection_points".into(), format!("{} {}", hpoly(&p1), hpoly(&p2))));
+        }
+        // convex polygons sharing (part of) a vertical / horizontal edge line
+        {
+            let (p1, p2) = gen_axis_edge_pair(r);
+            v.push(("convex_axis_edge_pair".into(), format!("{} {}", hpoly(&p1), hpoly(&p2))));
         }
     }
     v
